@@ -60,6 +60,7 @@ __CPROVER_ensures(T(__CPROVER_old(cb->engaged)) ? (self->id_alloc_ == __CPROVER_
 ST = ['v_cbmap__find', 'v_cbmap__end', 'v_map_it_second', 'v_cbmap__erase', 'v_cbmap__index', 'v_fn_call__void_int_nlohmann_basic_json_r', 'v_TM__add', 'Proto_sendRequest']
 H = lambda body: '\nvoid H(void)\n{\n' + body + '\n  __CPROVER_assert(0, "VACUITY-CANARY");\n}\n'
 UNITS = [UnitSpec(name='rpc', tu=TU, filter='tbox::jsonrpc', rename=R, spec=SPEC,
+    trusted=['std::unordered_map<int, callback> (Rpc::request_callback_) is an oracle for ONE request id (outstanding or not, its callback): the contracts of find, operator[] and erase restate the standard for that key'],
     plugins=[StdFunction(), StdVector(), OpaqueString(), StringStreamSink(), Chrono(),
              OpaqueTypes({r'^(tbox::)?eventx::TimeoutMonitor<.*>$': 'v_TM', r'^std::unordered_map<int, .*>$': 'v_cbmap', r'^std::unordered_map<.*>$': 'v_umap', r'^std::unordered_set<.*>$': 'v_uset',
                           r'^std::__detail::_Node_(const_)?iterator(_base)?<.*>$': 'long:v_umap_it'}), OpaqueJson()],
